@@ -37,6 +37,9 @@ DIMS = {
     'rstar': [1.0, 0.3],
     'distance': [1.0, 7.0],
     'prange': [[1e6, 1e-1], [1e7, 1e-4]],
+    # how the quadrature is chosen: constructor argument, or on the built model (built with two angles) through
+    # set_num_gauss(n) / set_quadratures(Gauss-Legendre nodes and weights on [-1, 1])
+    'quadvia': ['ctor', 'set_num_gauss', 'set_quadratures'],
     # type of the wavenumber axis of the cross-section tables (= the native grid): float64 or an integer np.arange axis
     'wndtype': ['float64', 'int64'],
     # abundance of the first active gas: absent everywhere, absent below and present aloft, present with a gap
@@ -77,7 +80,14 @@ def case_fn(case):
             'planet': [case['rplanet'], 1.0], 'star': [case['rstar'], case['starT']],
             'distance': case['distance'], 'T': case['T'], 'ngauss': case['ngauss'],
             'gases': [['H2O', case.get('h2o', ['const', 1e-4])], ['CH4', ['array', [1e-5, 1e-3]]]], 'contribs': contribs}
+    qv = case.get('quadvia', 'ctor')
+    if qv != 'ctor':
+        spec['ngauss'] = 2 if case['ngauss'] != 2 else 3
     m = fx.build_model(spec)
+    if qv == 'set_num_gauss':
+        m.set_num_gauss(case['ngauss'])
+    elif qv == 'set_quadratures':
+        m.set_quadratures(*np.polynomial.legendre.leggauss(case['ngauss']))
     grid, spectrum, tau_out, _ = m.model()
     spectrum = np.asarray(spectrum, float)
     N = m.nLayers
@@ -224,7 +234,7 @@ def hist_build(case):
 
 def hist_fn(case):
     r = core.R(case)
-    rthist.run_history(r, case['hist'], lambda: hist_build(case), '%s/%s' % (case['kind'], case['opmode']))
+    rthist.run_history(r, case['hist'], lambda: hist_build(case), '%s/%s' % (case['kind'], case['opmode']), as_numpy=bool(case.get('np')))
     return r
 
 
@@ -288,6 +298,8 @@ def explore(ctx):
     hcases = [{'kind': k, 'opmode': o, 'hist': h} for (k, o) in cfgs for h in hs]
     ctx.bounds.update(history_depth_full_alphabet=2 if ctx.tier == 'quick' else 3,
                       history_depth_reduced_alphabet=3 if ctx.tier == 'quick' else 4, histories=len(hcases))
+    # every single update once more with the value handed over as a numpy float64 scalar
+    hcases += [dict(c_, np=True) for c_ in hcases if len(c_['hist']) == 1]
     ctx.run_cases('hist_fn', hcases, phase='histories')
     import itertools as _it
     rc = [{'kind': k, 'opmode': o, 'seq': [list(w) if w else None for w in seq]}
